@@ -108,6 +108,7 @@ def main(prop, tier, replay=None):
                 CC.run_sessions(drv, rng, info["tables"]["defender"], cfail8, coord_stats, 60 if quick else 600, 45,
                                 {"burst": 0.15, "leave": 0.10, "bad": 0.02, "early_reset": 0.08})
                 CC.directed_sessions(drv, rng, info["tables"]["defender"], cfail8, coord_stats, 24 if quick else 400)
+                CC.directed_empty_game(drv, rng, info["tables"]["defender"], cfail8, coord_stats, 6 if quick else 60)
             if prop in ("C02", "C03") and info.get("tables"):
                 # coordinator level: the same comparison on the path the agents really use (message -> coordinator -> world):
                 # the view the coordinator holds after a game action = the proved effect on (held view, action, shared tables)
@@ -136,6 +137,8 @@ def main(prop, tier, replay=None):
                 CC.run_sessions(drv, rng, info["tables"]["defender"], cfail11, coord_stats, 50 if quick else 500, 40,
                                 {"burst": 0.1, "leave": 0.05, "bad": 0.02, "early_reset": 0.15, "roles": ["Attacker", "Defender", "Defender"]})
                 # wildcard start positions under re-labelling: what 'all_local' resolves to must exist in every episode
+                CC.directed_sessions(drv, rng, info["tables"]["defender"], cfail11, coord_stats, 16 if quick else 200)
+                CC.directed_empty_game(drv, rng, info["tables"]["defender"], cfail11, coord_stats, 6 if quick else 60)
                 CC.run_sessions(drv, rng, info["tables"]["defender"], cfail11, coord_stats, 16 if quick else 200, 30,
                                 {"burst": 0.0, "leave": 0.03, "bad": 0.0, "early_reset": 0.25, "roles": ["Defender", "Attacker"],
                                  "force_env": {"use_dynamic_addresses": True}, "defender_start": ["all_local"]})
